@@ -18,6 +18,18 @@ CLAIMED = {
  "C04": ("other", "sibling agreement of the presence table (TL1 mask bit, TL2 presence bit, field) across all generated sites",
          "Decides that for every generated struct the ties field↔TL1 mask bit↔hidden TL2 presence bit extracted from ReadTL1, WriteTL1, RepairMasks, FillRandom, ReadJSONGeneral, CalculateLayout, InternalWriteTL2, InternalReadTL2, WriteJSONOpt are single-valued and compose: a necessary condition for TL1→TL2→TL1 to preserve values. Value equality of JSON is not decided.",
          "trusts go/types and the shape extractor's idiom table; corpus-bounded", "DESIGN.md §3 C04"),
+ "C07": ("other", "composition-shape rule on the six result transcoders + nat-argument/result-type agreement + C01/C03 rules on the result wrappers",
+         "Decides that every ReadResultX+WriteResultY transcoder is exactly read-into-ret (error checked), then write of the same ret from the input buffer to the output buffer with no other effect; that TL1 and JSON result codecs pass identical nat arguments and one result type; that the TL1 result pair is dual and the TL2 result wrapper triple agrees slot by slot. Value equality with decode-then-encode is this composition identity, not an executed comparison.",
+         "trusts go/types; corpus-bounded", "DESIGN.md §3 C07"),
+ "C09": ("other", "must-define / no-stale-read dataflow over generated readers and Reset",
+         "Decides on every path to a success return of every generated TL1/TL2 reader and Reset that each receiver field (hidden TL2 masks, union index included) is assigned, reset or handed to a sibling reader/Reset; that no condition reads a field before this call defined it; that collection readers re-slice/reallocate/clear the destination first; that temporaries stored into collections are fresh per iteration. JSON readers are covered by C06's omitted-field rule; error values are not compared.",
+         "inductive summary: a sibling reader/Reset defines its operand; corpus-bounded", "DESIGN.md §3 C09"),
+ "C10": ("other", "clone isomorphism of string/[]byte twins (generated wire programs and basictl clone pairs) modulo a declared substitution",
+         "Decides that each []byte twin has the same TL1/TL2 wire programs, slot tables and nested-call order as its string version modulo the declared substitution, that slice-backed dictionary readers keep what they decode, and that the basictl clone pairs are AST-isomorphic modulo (utf8.ValidString↔Valid, DecodeRuneInString↔DecodeRune, string(x)↔x).",
+         "trusts C33 for primitive pairs; corpus-bounded", "DESIGN.md §3 C10"),
+ "C16": ("other", "who-may-call rule over the SSA/VTA call graph + ordering rules on the two directory writers",
+         "Decides that every file-system mutator call site in the generator packages belongs to a confirmed owner, that in both directory writers the marker test precedes every mutation except creating the outdir, that mutated paths are the outdir or filepath.Join(outdir,…), that handled files leave the stale set, unchanged files are not rewritten and remaining stale files are removed. File-system races are not decided.",
+         "trusts go/ssa+VTA (x/tools v0.29.0) and os semantics", "DESIGN.md §3 C16"),
  "C17": ("translation_validation", "constant evaluation and cross-check of registry tables against type constants and boxed writers",
          "Cross-checks by constant evaluation, per corpus: meta registration literals ↔ factory registrations ↔ TLName()/TLTag() constants of the constructed Go type ↔ first word written by WriteTL1Boxed; function-ness ⇔ result transcoders exist; HaTL1/HaTL2 ⇔ readers are real, not stubs; names and non-zero tags pairwise distinct; every item has a factory and vice versa.",
          "programs = corpora; agreement with the schema text is not decided (schema seen only through the generator)", "DESIGN.md §3 C17"),
